@@ -145,6 +145,14 @@ Section Select.
     - destruct Hex as (c' & [<-|[]] & Hg). exact Hg.
     - apply sel_loop_good. exact Hex.
   Qed.
+  (** ... and a supported one (expired if need be) whenever one of the choices is supported *)
+  Lemma default_select_sup l c :
+    default_select sup valid l = Some c -> (exists c', In c' l /\ sup (c_hash c') = true) -> sup (c_hash c) = true.
+  Proof.
+    intros H Hex. destruct (default_select_cases l c H) as [->|(a & b & r & -> & ->)].
+    - destruct Hex as (c' & [<-|[]] & Hs). exact Hs.
+    - apply sel_loop_sup. exact Hex.
+  Qed.
 End Select.
 
 (** ---- lookup on a cache satisfying the invariant ---- *)
